@@ -658,10 +658,13 @@ def _check_stacking(rng, vs, stats):
         y = numpy.array([rng.randint(-3, 12) for _ in X], dtype=numpy.int64)
         if rng.random() < 0.5:
             twins = [copy.deepcopy(m) for m, _ in inner]
+            kw = {}
+            if rng.random() < 0.5:      # fit parameters must reach every wrapped model, as in a direct fit
+                kw = {"sample_weight": numpy.array([rng.randint(1, 5) for _ in X], dtype=numpy.int64)}
             for t in twins:
-                t.fit(X, y=y)
-            s.fit(X, y)
-            hist.append("fit")
+                t.fit(X, y=y, **kw)
+            s.fit(X, y, **kw)
+            hist.append("fit" + ("+sample_weight" if kw else ""))
             stats["evaluations"] += 1
             bad = [i for i, ((m, _), t) in enumerate(zip(inner, twins)) if snap(m) != snap(t)]
             if bad:
@@ -699,7 +702,13 @@ def _check_transfer(rng, vs, stats):
     for stepno in range(rng.randint(1, 6)):
         X = numpy.array(rand_X(rng), dtype=numpy.int64)
         y = numpy.array([rng.randint(-3, 12) for _ in X], dtype=numpy.int64)
-        if rng.random() < 0.5 or not hist:
+        if hist and rng.random() < 0.25:
+            # the owner of the wrapped estimator trains it again (outside the transformer)
+            m.fit(X, **({"y": y} if sig in ("gen", "yw", "y") else {}))
+            before = snap(m)
+            hist.append("owner-refits-original")
+            continue
+        if rng.random() < 0.5 or not hist or hist[-1] == "owner-refits-original":
             prev = snap(t.estimator_) if hasattr(t, "estimator_") else None
             try:
                 t.fit(X, y)
